@@ -190,7 +190,11 @@ def escapeOut (e : Nat) : Option Nat :=
 
 /-- The body loop of `readString`.  `c` is the end cursor, `acc` the bytes of the value so
     far (reversed), `buf` whether the Go code has switched to its `bytes.Buffer` (after the
-    first escape; from then on runes are re-encoded, before that raw bytes are kept).
+    first escape).  Since the repair of `readString` (the default branch appends the SOURCE BYTES
+    `s.Input[s.end:s.end+w]` to the buffer instead of re-encoding the decoded rune) `buf` no longer
+    influences the result (`readStringLoop_buf_irrelevant`): with or without a buffer the value
+    keeps the raw bytes of every unescaped character, ill-formed UTF-8 included.  The parameter is
+    kept because every theorem about the loop is stated with it; removing it would only rename.
     `q` is the cursor at the opening quote. -/
 def readStringLoop (q : Cur) : Bytes → Cur → Bytes → Bool → Step
   | [], c, _, _ => mkErr c (str "Unterminated string.")
@@ -216,8 +220,8 @@ def readStringLoop (q : Cur) : Bytes → Cur → Bytes → Bool → Step
           | some o => readStringLoop q tl' (c.adv 2 2) (o :: acc) true
           | none => mkErr (c.adv 1 1) (msgEscape (encodeRune e))
     else
-      let (r, w) := if b ≥ 127 then decodeRune (b :: tl) else (b, 1)
-      let taken := if buf then encodeRune r else (b :: tl).take w
+      let (_, w) := if b ≥ 127 then decodeRune (b :: tl) else (b, 1)
+      let taken := (b :: tl).take w
       readStringLoop q (tl.drop (w - 1)) (c.adv w 1) (taken.reverse ++ acc) buf
 termination_by l => l.length
 decreasing_by all_goals (simp [List.length_drop]; try omega)
